@@ -250,7 +250,10 @@ impl Port for U3VInterfaceModule {
         self.assert_open()?;
         let address = address as usize;
         let len = buf.len();
-        let data = self.vm.read_raw(address..address + len)?;
+        let end = address
+            .checked_add(len)
+            .ok_or(GenTlError::InvalidAddress)?;
+        let data = self.vm.read_raw(address..end)?;
         buf.copy_from_slice(data);
         Ok(len)
     }
